@@ -125,14 +125,16 @@ func harnesses(r *fw.Run) []fw.HarnessSpec {
 	if !r.Quick() {
 		scen = append(scen, scenario{name: "two-waiters-timeout", updaters: [][]uint32{{1, 2, 3}}, waiters: []uint32{9, 8}})
 	}
-	bounds := map[string]int{"two-updaters-two-waiters": 1, "channel-filling": 1, "two-waiters-timeout": 2}
+	// deviation bound (delay-bounded scheduling: every departure from the deterministic base scheduler,
+	// every non-first ready select case and every timer-first deviation costs one)
+	bounds := map[string]int{"two-updaters-two-waiters": 2, "channel-filling": 2, "two-waiters-timeout": 2}
 	for _, modeB := range []bool{false, true} {
 		for _, sc := range scen {
 			modeB, sc := modeB, sc
 			if only := os.Getenv("C13_SCEN"); only != "" && only != sc.name {
 				continue
 			}
-			bound := r.Pick(2, 3)
+			bound := r.Pick(3, 4)
 			if b, ok := bounds[sc.name]; ok {
 				bound = b + r.Pick(0, 1)
 			}
@@ -225,7 +227,7 @@ func runWaiting(c *enum.Ctx, name string, modeB bool, body func(s *sched.S, p *p
 	start := time.Unix(1_700_000_000, 0)
 	vsync.ResetChannels()
 	vcrand.Reset(1)
-	s := sched.Start(c, start, 30*time.Second, 20000, os.Getenv("VERIF_TRACE") != "")
+	s := sched.Start(c, start, 120*time.Second, 40000, os.Getenv("VERIF_TRACE") != "")
 	defer func() {
 		if os.Getenv("VERIF_TRACE") != "" {
 			for _, l := range s.Trace {
@@ -257,7 +259,7 @@ func runWaiting(c *enum.Ctx, name string, modeB bool, body func(s *sched.S, p *p
 		return
 	}
 	if s.HorizonHit {
-		c.Fail("never-returns:"+name, "a pool operation did not return within 30 virtual seconds: %s", s.Blocked())
+		c.Fail("never-returns:"+name, "a pool operation did not return within 120 virtual seconds: %s", s.Blocked())
 		return
 	}
 	for _, w := range rec.waits {
